@@ -6,6 +6,7 @@ import (
 	"fmt"
 	"net/http"
 	"net/http/httptest"
+	"strconv"
 	"strings"
 
 	admissionv1 "k8s.io/api/admission/v1"
@@ -31,6 +32,7 @@ func runRealListerHistory(c *Ctx) {
 		lead := genPopPod(r, 0, nil)
 		lead.Name, lead.Spec.RuntimeClassName = "aa-exempt-first", &rc
 		pods = append([]*corev1.Pod{lead}, pods...)
+		pageCap := 1 + r.Intn(4)
 		ts := httptest.NewServer(http.HandlerFunc(func(w http.ResponseWriter, rq *http.Request) {
 			w.Header().Set("Content-Type", "application/json")
 			parts := strings.Split(strings.Trim(rq.URL.Path, "/"), "/")
@@ -38,8 +40,21 @@ func runRealListerHistory(c *Ctx) {
 			case len(parts) == 4 && parts[2] == "namespaces":
 				json.NewEncoder(w).Encode(&corev1.Namespace{TypeMeta: metav1.TypeMeta{Kind: "Namespace", APIVersion: "v1"}, ObjectMeta: metav1.ObjectMeta{Name: parts[3]}})
 			case len(parts) == 5 && parts[4] == "pods":
+				// like an API server: everything at once when no limit is asked for; otherwise pages of at most min(limit, pageCap)
+				// items with a continue token while pods remain (a server may return fewer items than the limit)
 				pl := &corev1.PodList{TypeMeta: metav1.TypeMeta{Kind: "PodList", APIVersion: "v1"}}
-				for _, p := range pods {
+				start, _ := strconv.Atoi(rq.URL.Query().Get("continue"))
+				end := len(pods)
+				if lim, err := strconv.Atoi(rq.URL.Query().Get("limit")); err == nil && lim > 0 {
+					if lim > pageCap {
+						lim = pageCap
+					}
+					if start+lim < end {
+						end = start + lim
+						pl.Continue = strconv.Itoa(end)
+					}
+				}
+				for _, p := range pods[start:end] {
 					pl.Items = append(pl.Items, *p)
 				}
 				json.NewEncoder(w).Encode(pl)
@@ -67,7 +82,10 @@ func runRealListerHistory(c *Ctx) {
 		a := &AdmitCase{Res: "namespaces", Op: admissionv1.Update, Name: "team-a", NS: "team-a", User: "u", ExpireAfter: -1,
 			Obj: ObjSpec{Kind: "namespace", NSName: "team-a", Labels: map[string]string{api.EnforceLevelLabel: level}},
 			Old: ObjSpec{Kind: "namespace", NSName: "team-a", Labels: map[string]string{}}}
-		alone := mk().Validate(context.Background(), a.attributes()).DeepCopy()
+		// the reference: the same controller configuration over an in-memory lister holding exactly the pods the API server has
+		ref := mk()
+		ref.PodLister = clusterLister{"team-a": pods}
+		alone := ref.Validate(context.Background(), a.attributes()).DeepCopy()
 		shared := mk()
 		for k := 0; k < 3; k++ {
 			got := shared.Validate(context.Background(), a.attributes()).DeepCopy()
@@ -78,9 +96,9 @@ func runRealListerHistory(c *Ctx) {
 				for _, p := range pods {
 					names = append(names, p.Name)
 				}
-				c.Violate(Finding{Desc: fmt.Sprintf("client-backed pod lister: request %d of the same namespace update to one controller is answered differently from the request alone on a fresh controller", k+1),
+				c.Violate(Finding{Desc: fmt.Sprintf("client-backed pod lister: request %d of the same namespace update to one controller is answered differently from a controller whose lister holds the same pods in memory", k+1),
 					Key: "lister-history", Input: J{"newEnforce": level, "podsAsListed": names, "exemptRuntimeClasses": []string{"exrc"}},
-					Go: J{"afterEarlierRequests": got.Warnings, "alone": alone.Warnings}})
+					Go: J{"clientBackedLister": got.Warnings, "inMemoryLister": alone.Warnings, "serverPageCap": pageCap}})
 				break
 			}
 		}
